@@ -11,8 +11,8 @@ func init() {
 	register(&Property{
 		ID:         "C38",
 		Level:      "other",
-		Technique:  "sibling agreement of the two feature-resolution implementations (per resolved feature: the set of enum values that turn it on), exhaustiveness over the EditionFeatures struct, parent-first merge shape at every call site (static)",
-		Explain:    "Decides structural necessary conditions of feature resolution by inheritance: (1) the compact builder's unmarshalFeatureSet/unmarshalGoFeature (generated code path) and protodesc's mergeEditionFeatures (descriptor-proto path) assign the same set of resolved features, every field of filedesc.EditionFeatures is assigned by both, and for each boolean feature both compare the FeatureSet field against the same set of enum values (e.g. field presence = EXPLICIT or LEGACY_REQUIRED; legacy-required = LEGACY_REQUIRED); (2) every merge is parent-first: the override is applied on top of the features already inherited (the child's own features record initialised from, or the parent descriptor passed to, the merge) so a nearer explicit setting wins and unset features keep the inherited value; (3) the legacy `packed` field option overrides the inherited repeated-field encoding with its value (true or false) in both builders.",
+		Technique:  "sibling agreement of the two feature-resolution implementations (per resolved feature: the set of enum values that turn it on), exhaustiveness over the EditionFeatures struct, parent-first merge shape at every call site; ownership rule for the cached defaults (static)",
+		Explain:    "Decides structural necessary conditions of feature resolution by inheritance: (1) the compact builder's unmarshalFeatureSet/unmarshalGoFeature (generated code path) and protodesc's mergeEditionFeatures (descriptor-proto path) assign the same set of resolved features, every field of filedesc.EditionFeatures is assigned by both, and for each boolean feature both compare the FeatureSet field against the same set of enum values (e.g. field presence = EXPLICIT or LEGACY_REQUIRED; legacy-required = LEGACY_REQUIRED); (2) every merge is parent-first: the override is applied on top of the features already inherited (the child's own features record initialised from, or the parent descriptor passed to, the merge) so a nearer explicit setting wins and unset features keep the inherited value; (3) the legacy `packed` field option overrides the inherited repeated-field encoding with its value (true or false) in both builders. Also: feature inheritance steps and option promotion as under C37; the cached edition defaults returned by getFeatureSetFor are never a write destination; RequiredNumbers is built from the resolved cardinality.",
 		NotCovered: "edition defaults tables (binary defaults blob), the file→message→field initialisation order on concrete schemas, and behavioural equivalence of proto2/proto3 files with their editions translation.",
 		Quick:      all("./internal/filedesc", "./reflect/protodesc"),
 		Thorough:   all("./..."),
